@@ -35,7 +35,7 @@ StateInv == StateClauses(st, Frozen, Native) = {}
 \* for every open order, the owner's cancel and an executor's expire are accepted
 \* (what they pay and that the order is gone is judged by the step clauses of those transitions)
 ExitInv ==
-    st.cfg.set =>
+    (st.cfg.set /\ Native) =>
       /\ \A k \in DOMAIN st.asks :
            /\ \A o \in Outcomes(st, cenv, RReverse("cancel_ask", st.asks[k].owner, NoFunds, k, NoSize)) : o.resp.ok
            /\ \A e \in Range(st.cfg.executors) :
